@@ -92,7 +92,12 @@ class CylinderParAxis(Surface):
         # do not assume transform and periodic surfaces are the same.
         if not self.old_periodic_surface:
             for surface in surfaces:
-                if surface != self and surface.surface_type == self.surface_type:
+                if (
+                    surface != self
+                    and surface.surface_type == self.surface_type
+                    and surface.is_reflecting == self.is_reflecting
+                    and surface.is_white_boundary == self.is_white_boundary
+                ):
                     if not self.old_periodic_surface:
                         match = True
                         if abs(self.radius - surface.radius) >= tolerance:
